@@ -22,9 +22,14 @@ def grid_groups(world: int, rows: int) -> dict[str, list[list[int]]]:
     }
 
 
-def group_of(plan: dict[str, Any], name: str, rank: int) -> list[int]:
+def group_of(plan: dict[str, Any], name: str, rank: int) -> Any:
+    """Members of `rank`'s group of that name (None: rank is not in 'sub')."""
     if name == 'world':
         return list(range(plan['world']))
+    if name == 'sub':
+        # a group that is not part of a partition: only its members use it,
+        # so they interleave it with their other groups and the rest do not
+        return list(plan['sub']) if rank in plan['sub'] else None
     for g in grid_groups(plan['world'], plan['rows'])[name]:
         if rank in g:
             return g
@@ -115,6 +120,10 @@ def rank_program(plan: dict[str, Any], sim: core.Sim, mode: str) -> Any:
                 h = dist.new_group(members)
                 if rank in members:
                     handles[name] = h
+        if plan.get('sub'):
+            h = dist.new_group(list(plan['sub']))
+            if rank in plan['sub']:
+                handles['sub'] = h
         out: list[dict[str, Any]] = []
         pending: list[tuple[int, Any]] = []
 
@@ -140,6 +149,9 @@ def rank_program(plan: dict[str, Any], sim: core.Sim, mode: str) -> Any:
                     tdc.flush_allreduce_buckets()
                     n1 = sum(1 for e in sim.log if len(e) > 8 and e[1] == rank)
                     rec['second_flush_posts'] = n1 - n0
+                continue
+            if group_of(plan, call['group'], rank) is None:
+                rec['skipped'] = True
                 continue
             t = make_tensor(call, cid, rank)
             kind = call['kind']
@@ -253,6 +265,8 @@ def check(plan: dict[str, Any], res: dict[str, Any], mode: str,
                     bad('C08.second_flush_posts', rank=rank, cid=cid,
                         mode=mode)
                 continue
+            if rec.get('skipped'):
+                continue
             sym = bool(call.get('symmetric')) and mode != 'dense'
             single = len(group_of(plan, call['group'], rank)) == 1
             if sym and not is_square(call) and single:
@@ -312,6 +326,8 @@ def check(plan: dict[str, Any], res: dict[str, Any], mode: str,
                 continue
             if call.get('symmetric') and mode != 'dense' and not is_square(
                     call):
+                continue
+            if group_of(plan, call['group'], rank) is None:
                 continue
             members = tuple(group_of(plan, call['group'], rank))
             if len(members) == 1:
@@ -410,6 +426,11 @@ def gen_comm_plan(rng: random.Random, *, tier: str, symmetric_only: bool,
     if not symmetric_only and rng.random() < 0.25:
         focus = {'group': rng.choice(['world', 'world', 'row', 'col']),
                  'average': rng.random() < 0.4, 'symmetric': False}
+    sub = None
+    if world >= 3 and rng.random() < 0.3:
+        sub = sorted(rng.sample(range(world), rng.randint(2, world - 1)))
+    gnames = ['world', 'world', 'row', 'col', 'self'] + (
+        ['sub', 'sub'] if sub else [])
     for _ in range(n_calls):
         r = rng.random()
         if r < 0.18 and calls:
@@ -442,8 +463,7 @@ def gen_comm_plan(rng: random.Random, *, tier: str, symmetric_only: bool,
         if mixed_dtypes and rng.random() < 0.4:
             dt = rng.choice(['float32', 'float64'])
         call = {
-            'kind': kind, 'group': rng.choice(
-                ['world', 'world', 'row', 'col', 'self']),
+            'kind': kind, 'group': rng.choice(gnames),
             'shape': shape, 'dtype': dt, 'symmetric': sym,
             'symmetric_data': sym and len(shape) == 2
             and shape[0] == shape[1],
@@ -465,7 +485,7 @@ def gen_comm_plan(rng: random.Random, *, tier: str, symmetric_only: bool,
         sizes[0], sizes[-1],
     ])
     return {
-        'kind': 'comm', 'world': world, 'rows': rows,
+        'kind': 'comm', 'world': world, 'rows': rows, 'sub': sub,
         'group_order': rng.sample(['row', 'col', 'self'], 3),
         'cap_mb': cap_bytes / 1e6, 'calls': calls,
         'sim': {
